@@ -373,6 +373,137 @@ def pool_request(rng, tier):
     return "c09.pool %d %s %d %d %s" % (len(tabs), " ".join(lst(x) + " " + lst(y) for x, y in tabs), ns, len(ops), " ".join(ops))
 
 
+def steffen_abc(xs, ys, j):
+    """coefficients a, b, c of piece j as Compute_Steffen_Coefficients forms them (double arithmetic)"""
+    n = len(xs)
+    h = [xs[i + 1] - xs[i] for i in range(n - 1)]
+    sl = [(ys[i + 1] - ys[i]) / h[i] for i in range(n - 1)]
+    sg = lambda v: (v > 0) - (v < 0)
+
+    def dy(i):
+        if i == 0:
+            p = sl[0] * (1.0 + h[0] / (h[0] + h[1])) - sl[1] * h[0] / (h[0] + h[1])
+            return (sg(p) + sg(sl[0])) * min(abs(sl[0]), 0.5 * abs(p))
+        if i == n - 1:
+            p = sl[i - 1] * (1.0 + h[i - 1] / (h[i - 1] + h[i - 2])) - sl[i - 2] * h[i - 1] / (h[i - 1] + h[i - 2])
+            return (sg(p) + sg(sl[i - 1])) * min(abs(sl[i - 1]), 0.5 * abs(p))
+        p = (sl[i - 1] * h[i] + sl[i] * h[i - 1]) / (h[i - 1] + h[i])
+        return (sg(sl[i - 1]) + sg(sl[i])) * min(abs(p) / 2.0, min(abs(sl[i]), abs(sl[i - 1])))
+    d0, d1 = dy(j), dy(j + 1)
+    return (d0 + d1 - 2.0 * sl[j]) / (h[j] * h[j]), (3.0 * sl[j] - 2.0 * d0 - d1) / h[j], d0
+
+
+def stationary_points(xs, ys, j, lo, hi):
+    """abscissae of the stationary points of piece j strictly inside (lo, hi), as Stationary_Values finds them"""
+    a, b, c = steffen_abc(xs, ys, j)
+    A, B, C = 3.0 * a, 2.0 * b, c
+    roots = []
+    if A == 0.0:
+        if B != 0.0:
+            roots.append(-C / B)
+    else:
+        disc = B * B - 4.0 * A * C
+        if disc >= 0.0:
+            q = -0.5 * (B + (1.0 if B >= 0.0 else -1.0) * math.sqrt(disc))
+            roots.append(q / A)
+            if q != 0.0:
+                roots.append(C / q)
+    return [xs[j] + t for t in roots if lo < xs[j] + t < hi and math.isfinite(t)]
+
+
+def zone_tables(rng, nrand, ndyadic):
+    """tables whose edge cubic turns strictly inside the 1% zone: (xs, ys, side)"""
+    out = [([0.0, 1.0, 2.0], [0.0, 1.0, 3.98], "L"), ([0.0, 1.0, 2.0], [-3.98, -1.0, 0.0], "R")]
+    for it in range(nrand):
+        n = rng.randint(3, 6)
+        x0 = rng.choice([0.0, -3.0, rng.uniform(-100, 100)])
+        if it % 2 == 0:   # equal spacing: the edge piece is a parabola up to rounding, linear or quadratic branch with a tiny A
+            h = rng.choice([1.0, 0.5, 2.0, rng.uniform(0.1, 10)])
+            hs = [h] * (n - 1)
+        else:             # unequal spacing, non-dyadic data: a is a rounding residue != 0, quadratic branch (q/A far away, C/q the turning point)
+            hs = [rng.uniform(0.1, 10) for _ in range(n - 1)]
+        xs = [x0]
+        for h in hs:
+            xs.append(xs[-1] + h)
+        s0 = rng.choice([-1.0, 1.0]) * 10.0 ** rng.uniform(-2, 2)
+        dl = rng.uniform(0.002, 0.02)
+        ys = [rng.uniform(-5, 5)]
+        ys.append(ys[0] + s0 * hs[0])
+        # boundary slope estimate p0 = s0 (2 h0 + h1)/(h0 + h1) - s1 h0/(h0 + h1) almost zero: s1 ~ s0 (2 h0 + h1)/h0
+        ys.append(ys[1] + s0 * (2 * hs[0] + hs[1]) / hs[0] * (1 - dl) * hs[1])
+        while len(ys) < n:
+            ys.append(ys[-1] + s0 * hs[len(ys) - 1] * rng.uniform(0.5, 3))
+        side = "L"
+        if rng.random() < 0.5:    # the same at the right end
+            xs = [-(v) for v in reversed(xs)]; ys = list(reversed(ys)); side = "R"
+        out.append((fix_increasing(xs), ys, side))
+    for it in range(ndyadic):
+        # exactly representable parabolic data f = al (x - xv)^2 + be with the vertex xv strictly inside the zone:
+        # every Steffen quantity is exact, a == 0.0 bit for bit -> the A == 0 branch of Stationary_Values
+        n = rng.randint(3, 6)
+        h = 2.0 ** rng.randint(-2, 3)
+        x0 = h * rng.randint(-4, 4)
+        xs = [x0 + h * i for i in range(n)]
+        al = rng.choice([-1.0, 1.0]) * 2.0 ** rng.randint(-2, 2)
+        be = float(rng.randint(-3, 3))
+        k = rng.randint(2, 9)          # vertex at k/1024 of the spacing outside the domain (the zone is 10.24/1024)
+        if it % 2 == 0:
+            xv = x0 - h * k / 1024.0; side = "L"
+        else:
+            xv = xs[-1] + h * k / 1024.0; side = "R"
+        ys = [al * (x - xv) ** 2 + be for x in xs]
+        assert all(Fraction(y) == Fraction(al) * (Fraction(x) - Fraction(xv)) ** 2 + Fraction(be) for x, y in zip(xs, ys))
+        out.append((xs, ys, side))
+    return out
+
+
+
+def zone_hist_request(rng, tb):
+    """a history on a table whose edge cubic turns inside the 1% zone: Local_Minimum/Maximum with limits in the zone in every
+    ordering relative to the turning point, Set_Prefactor / Multiply of either sign before and between the queries"""
+    xs, ys, side = tb
+    n = len(xs)
+    if side == "L":
+        knot, edge, j = xs[0], xs[0] - 0.0095 * (xs[1] - xs[0]), 0
+        st = stationary_points(xs, ys, j, edge, knot)
+    else:
+        knot, edge, j = xs[-1], xs[-1] + 0.0095 * (xs[-1] - xs[-2]), n - 2
+        st = stationary_points(xs, ys, j, knot, edge)
+    xstar = st[0] if len(st) == 1 else knot + 0.5 * (edge - knot)
+    H = []
+    for _ in range(rng.randint(8, 30)):
+        c = rng.random()
+        if c < 0.18:
+            H.append("P %s" % hx(rng.choice([4.0, -3.0, 0.5, -1.0, 2.5, rng.uniform(-5, 5)])))
+        elif c < 0.3:
+            H.append("X %s" % hx(rng.choice([-1.0, 2.0, -0.5, 3.0])))
+        elif c < 0.34:
+            H.append("C")
+        else:
+            cell = rng.randrange(4)
+            f1, f2 = rng.uniform(0.05, 0.95), rng.uniform(0.05, 0.95)
+            if cell == 0:
+                a, b = knot + f1 * (xstar - knot), knot + f2 * (xstar - knot)
+            elif cell == 1:
+                a, b = knot + f1 * (xstar - knot), xstar + f2 * (edge - xstar)
+            elif cell == 2:
+                a, b = xstar + f1 * (edge - xstar), xstar + f2 * (edge - xstar)
+            else:
+                a, b = point(rng, xs, rng.randint(0, n - 2)), xstar + f2 * (edge - xstar)
+            lo, hi = min(a, b), max(a, b)
+            d = rng.random()
+            if d < 0.7:
+                H.append("%s %s %s" % (rng.choice("mM"), hx(lo), hx(hi)))
+            elif d < 0.8:
+                H.append("G %s %s" % (hx(a), hx(b)))
+            elif d < 0.9:
+                H.append("I %s" % hx(a))
+            else:
+                H.append("L %s" % hx(b))
+    Q = ["m %s %s" % (hx(min(knot, edge)), hx(max(knot, edge))), "M %s %s" % (hx(min(knot, edge)), hx(max(knot, edge))), "gm", "gM"]
+    return "c09.hist %s %s %s %s %d %s %d %s" % (lst(xs), lst(ys), hx(-1.0), hx(-1.0), len(H), " ".join(H), len(Q), " ".join(Q))
+
+
 def locate1_requests(rng, tier):
     """every reachable search state x every probe abscissa, on small tables"""
     R = []
@@ -421,6 +552,8 @@ def generate(tier, seed, ctx):
         R.append(hist2_request(rng, tier))
     for _ in range(400 if thorough else 90):
         R.append(pool_request(rng, tier))
+    for tb in zone_tables(rng, 40 if thorough else 10, 40 if thorough else 14):   # stationary values of the edge cubic (fix 51ca844)
+        R.append(zone_hist_request(rng, tb))
     # malformed tables: constructor must stop with a diagnostic (model: err)
     R.append("c09.hist %s %s %s %s 0 0" % (lst([0.0, 1.0]), lst([0.0, 1.0]), hx(-1.0), hx(2.0)))
     R.append("c09.hist %s %s %s %s 0 0" % (lst([0.0, 1.0, 1.0]), lst([0.0, 1.0, 2.0]), hx(2.0), hx(-1.0)))
